@@ -72,6 +72,8 @@ type checkCfg struct {
 	binName      string
 	buildFlags   []string
 	points       bool // thorough tier adds statement-level collection points
+	alsoPlain    bool // a second batch with the plain build (checkptr moves some stack objects to the heap and can hide stack-lifetime bugs)
+	gcStress     bool // supplementary, non-deterministic batch: background collector at GC percent 1, several Ps
 	arch386      int  // 0 = never; 1 = thorough tier; 2 = quick tier too: an extra batch built with GOARCH=386 (portable node16 routines, 32-bit uint/int)
 }
 
@@ -89,7 +91,7 @@ var checkCfgs = map[string]checkCfg{
 	"C13": {engine: "world", quickRuns: 60000, thoroughRuns: 400000},
 	"C14": {engine: "world", quickRuns: 30000, thoroughRuns: 200000},
 	"C15": {engine: "world", quickRuns: 20000, thoroughRuns: 200000},
-	"C18": {engine: "world", quickRuns: 6000, thoroughRuns: 60000, env: []string{"GODEBUG=clobberfree=1"}, crashIsMine: true, binName: "sim-checkptr", buildFlags: []string{"-gcflags=all=-d=checkptr=2"}, points: true},
+	"C18": {engine: "world", quickRuns: 6000, thoroughRuns: 60000, env: []string{"GODEBUG=clobberfree=1"}, crashIsMine: true, binName: "sim-checkptr", buildFlags: []string{"-gcflags=all=-d=checkptr=2"}, points: true, alsoPlain: true, gcStress: true},
 	"C10": {engine: "node", quickRuns: 30000, thoroughRuns: 120000, arch386: 2},
 	"C16": {engine: "race", quickRuns: 320, thoroughRuns: 30000},
 	"C17": {engine: "heap", quickRuns: 288, thoroughRuns: 1152},
@@ -780,6 +782,11 @@ func (c *checker) handleViolations(bin string, br *batchResult, extraEnv []strin
 			continue
 		}
 		confirmTries := 1
+		for _, e := range extraEnv {
+			if strings.HasPrefix(e, "VERIF_GCPERCENT=") {
+				confirmTries = 10 // the background collector's timing is not under the simulator's control
+			}
+		}
 		if c.cfg.engine == "race" {
 			// under -race sync.Pool drops one Put in four at random: whether another
 			// goroutine's tree receives the very node just released is a coin flip
@@ -843,6 +850,11 @@ func (c *checker) handleViolations(bin string, br *batchResult, extraEnv []strin
 			if want.Class == "race" {
 				attempts = 3 // the detector keeps a bounded access history: a report can be missed, never invented
 			}
+			for _, e := range extraEnv {
+				if strings.HasPrefix(e, "VERIF_GCPERCENT=") {
+					attempts = 4
+				}
+			}
 			test = func(t *Trace) *Violation {
 				var last *Violation
 				for a := 0; a < attempts; a++ {
@@ -887,6 +899,11 @@ func (c *checker) handleViolations(bin string, br *batchResult, extraEnv []strin
 		tries := 1
 		if final.Class == "race" {
 			tries = 6
+		}
+		for _, e := range extraEnv {
+			if strings.HasPrefix(e, "VERIF_GCPERCENT=") {
+				tries = 10
+			}
 		}
 		for a := 0; a < tries && !sameFailure(got, final); a++ {
 			rv := c.execFile(bin, rp, extraEnv, 5*time.Minute)
@@ -997,6 +1014,31 @@ func (c *checker) worldCheck() (map[string]any, int, int) {
 		}
 	}
 	cov["statement_points"] = pointsInfo
+
+	if c.cfg.alsoPlain {
+		saved := c.budget
+		c.budget = saved / 2
+		pb := c.runBatch(c.self, "main", max(300, N/3), env)
+		c.budget = saved
+		c.handleViolations(c.self, pb, env)
+		cov["plain_build_batch"] = map[string]any{"runs": pb.runs, "steps": pb.steps, "note": "same environment (clobberfree, forced collections) without checkptr instrumentation"}
+		br.runs += pb.runs
+		br.steps += pb.steps
+		br.records = append(br.records, pb.records...)
+	}
+	if c.cfg.gcStress {
+		genv := append(append([]string{}, env...), "VERIF_GCPERCENT=1", "VERIF_PROCS=4")
+		saved, savedW := c.budget, c.workers
+		c.budget = saved / 2
+		c.workers = max(2, savedW/3)
+		gb := c.runBatch(c.self, "main", max(200, N/6), genv)
+		c.budget, c.workers = saved, savedW
+		c.handleViolations(c.self, gb, genv)
+		cov["background_collector_batch"] = map[string]any{"runs": gb.runs, "steps": gb.steps, "gc_percent": 1, "gomaxprocs": 4,
+			"note": "supplementary and NOT deterministic: the background collector marks concurrently with the operations; a finding counts only if it reproduces on re-execution (up to 10 attempts), otherwise it is listed as inconclusive"}
+		br.runs += gb.runs
+		br.steps += gb.steps
+	}
 
 	// the same property on a 32-bit build: portable (non-assembly) 16-slot routines, 32-bit uint/int
 	archInfo := map[string]any{"enabled": false}
